@@ -4,6 +4,7 @@ import itertools
 import warnings
 from fractions import Fraction as F
 
+import common as C
 from props import _units as X
 from props.c12 import shape
 
@@ -28,7 +29,7 @@ RULE = ("exponent maps over 1-4 symbols (every order), integer exponents in [-4,
         "back, and MeasurementArray.append / insert / item assignment are exercised on arrays "
         "built the same way; the printed string is also fed to the Lean parser model and the Lean "
         "printer's string to the real parser.  Non-trivial = no positive exponent, or a "
-        "non-integer exponent; quick: all single-symbol maps + 500 sampled; thorough: exhaustive")
+        "non-integer exponent; quick: all single-symbol maps + 500 sampled; thorough: exhaustive.  Settings that are not about units (print style latex / scientific by every route, significant figures, MC sample size, plot size) stay in force at the judged print in a third of all cases; some cases start a new process (also run in a fork of a fresh interpreter)")
 ASSUMPTIONS = ["exponents with denominator <= 10 (Fraction.limit_denominator(10) is the identity "
                "there); binary64 exponents p/q are read back as exact fractions",
                "no compound-unit definitions active AT THE TIME of the judged print (definitions that "
@@ -174,7 +175,51 @@ def build(q, u, route, mk):
 #                                 shown: how = "unit" | "str" | "array" | "derived" (product of
 #                                 powers instead of a unit string)
 #   ["clear"]                     q.clear_unit_definitions()
+#   ["setting", what, value]      a setting that is NOT about units (how VALUES are printed, how
+#                                 errors are computed, plot size): a free configuration of the
+#                                 quantifier "in both unit styles" - it is NOT put back before the
+#                                 judged print, the printed unit must not depend on it
 NAMES = ["N", "J", "Pa", "Wb", "Oh", "Vv"]          # none is a symbol of X.SYMS
+# every route to the print style (enum member, its lower-case name; other spellings are rejected) and the other
+# settings; the error method is left out: with Monte Carlo str() of a derived quantity simulates
+# the VALUE (C09 / C16), which says nothing about units
+SETTINGS = ([["print_style", v] for v in ("latex", "enum:LATEX", "latex", "enum:LATEX", "scientific",
+                                           "enum:SCIENTIFIC", "enum:DEFAULT", "default")]
+            + [["sig_figs_error", n] for n in (1, 2, 4)] + [["sig_figs_value", n] for n in (1, 3, 5)]
+            + [["mc_sample_size", 1000], ["plot_dimensions", [4.0, 3.0]]])
+
+
+def gen_settings(rng):
+    """1-2 settings unrelated to units; the print style (latex / scientific) most often"""
+    out = [["setting"] + rng.choice(SETTINGS[:6] if rng.random() < 0.7 else SETTINGS)]
+    if rng.random() < 0.3:
+        out.append(["setting"] + rng.choice(SETTINGS))
+    return out
+
+
+def with_settings(rng, pre, style_only=False):
+    """put settings steps somewhere into a history (start, end, or in between)"""
+    pre = [list(st) for st in pre]
+    for st in gen_settings(rng):
+        if style_only and st[1] != "print_style":
+            continue
+        pre.insert(rng.choice([0, len(pre), rng.randint(0, len(pre))]), st)
+    return pre
+
+
+def apply_setting(q, what, value):
+    if what == "print_style":
+        q.set_print_style(getattr(q.PrintStyle, value[5:]) if value.startswith("enum:") else value)
+    elif what == "sig_figs_error":
+        q.set_sig_figs_for_error(value)
+    elif what == "sig_figs_value":
+        q.set_sig_figs_for_value(value)
+    elif what == "mc_sample_size":
+        q.set_monte_carlo_sample_size(value)
+    elif what == "plot_dimensions":
+        q.set_plot_dimensions(tuple(value))
+    else:
+        raise ValueError(what)
 HISTORY_KINDS = ["named:exact", "named:power", "named:reordered", "named:part", "named:unrelated",
                  "redefined", "style-flip", "printed-before", "neighbour-before",
                  "defined-never-printed", "rejected-definitions"]
@@ -263,6 +308,10 @@ def run_pre(q, pre, log):
                 q.set_unit_style(q.UnitStyle.FRACTION if st[1] else q.UnitStyle.EXPONENTS)
             elif st[0] == "clear":
                 q.clear_unit_definitions()
+            elif st[0] == "setting":
+                apply_setting(q, st[1], st[2])
+            elif st[0] == "fresh":
+                pass
             else:
                 v = X.units_from_json(st[1])
                 if st[2] == "derived":
@@ -304,7 +353,10 @@ def base_value(route):
 
 def observe(q, u, frac, route, arrays, faults=True, pre=()):
     out = {"route": route}
-    X.reset(q)
+    if pre and list(pre[0]) == ["fresh"] and X.PROCESS["virgin"]:
+        X.PROCESS["virgin"] = False     # the case starts a process: nothing is requested before it
+    else:
+        X.reset(q)
     if pre:
         assert pre_in_domain(pre)
         out["pre_log"] = []
@@ -427,6 +479,11 @@ def pre_text(pre):
             out.append("set_unit_style({})".format("FRACTION" if st[1] else "EXPONENTS"))
         elif st[0] == "clear":
             out.append("clear_unit_definitions()")
+        elif st[0] == "fresh":
+            out.append("(new process)")
+        elif st[0] == "setting":
+            out.append("set_{}({})".format(st[1], "PrintStyle." + st[2][5:] if str(st[2]).startswith(
+                "enum:") else repr(st[2])))
         else:
             out.append("show({}) of a quantity with unit {}".format(
                 st[2], text_of(X.units_from_json(st[1]))))
@@ -613,11 +670,19 @@ def run(ctx, cases, ref=False, use_model=True):
     failures, nontriv, samples = [], set(), []
     dist = collections.Counter()
     same = 0
+    room = None
     for (u, frac, route, arrays, pre), o, a, b in zip(cases, obs, mp, ms):
         if pre:
             dist["after a history"] += 1
             for st in pre:
-                dist["history step:" + st[0] + (":" + st[2] if st[0] == "print" else "")] += 1
+                dist["history step:" + st[0] + (":" + st[2] if st[0] == "print" else "")
+                     + (":{}={}".format(st[1], str(st[2]).replace("enum:", "").upper()
+                                        if st[1] == "print_style" else "*")
+                        if st[0] == "setting" else "")] += 1
+            if any(st[0] == "setting" and st[1] == "print_style" and "LATEX" in st[2].upper()
+                   for st in pre):
+                multi = sum(1 for _, e in u if e > 0) > 1 or sum(1 for _, e in u if e < 0) > 1
+                dist["judged under the LATEX print style" + (", unit with a dot" if multi else "")] += 1
         dist["style:" + ("fraction" if frac else "exponents")] += 1
         dist["route:" + route.split(":")[0].split("|")[0]] += 1
         if "|" in route:
@@ -635,12 +700,23 @@ def run(ctx, cases, ref=False, use_model=True):
             dist["nontrivial"] += 1
         if a and "s" in a and a["s"] == o.get("s"):
             same += 1
-        failures += judge(u, frac, o, a, b, pre)
+        fs = judge(u, frac, o, a, b, pre)
+        if not fs and pre and list(pre[0]) == ["fresh"]:
+            # the same case where it belongs: in a process in which nothing happened before it
+            room = room or C.CleanRoom("props.c13")
+            ans = room.replay({"case": {"u": X.units_json(u), "frac": frac, "route": route,
+                                        "pre": [list(st) for st in pre]}})
+            dist["cases executed in a new process (no reset before them)"] += 1
+            if ans.get("fails") and ans.get("failures"):
+                fs = [dict(ans["failures"][0], reproduces_alone=True, carries_history=True)]
+        failures += fs
         if len(samples) < 5 and len(u) > 1 and "s" in o:
             samples.append({"units": X.show(tuple(u)), "style": "fraction" if frac else "exponents",
                             "route": route, "printed": o["s"], "assign": o.get("assign"),
                             "model_string": a["s"] if a and "s" in a else None})
     dist["model string identical to implementation string"] = same
+    if room:
+        room.close()
     return {"evaluations": len(cases), "nontrivial": nontriv, "failures": failures,
             "samples": samples, "distribution": dict(dist)}
 
@@ -695,7 +771,36 @@ def gen_cases(rng, n, arrays_every=4, tags=None):
     for i, (u, route) in enumerate(chain_cases(rng, max(20, n // 10))):
         for frac in (True, False):
             cases.append((u, frac, route, i % 3 == 0))
-    return cases
+    # FEATURE INTERACTION: settings that are not about units (print style of values, significant
+    # figures, ...) are in force at the judged print in a third of ALL cases above, whatever
+    # their route / type / history; and deliberately for multi-factor units with arrays
+    out = []
+    for c in cases:
+        c = tuple(c) + ((),) * (5 - len(c))
+        if rng.random() < 0.33:
+            # binary16 powers compute the VALUES in binary16 (see base_value): with other numbers of
+            # significant figures str() of such a value raises OverflowError in the unchanged
+            # library - value formatting, C09's statement, not a unit: print style only there
+            pre = with_settings(rng, c[4], style_only="np.float16" in c[2])
+            if len(pre) == len(c[4]):
+                out.append(c)
+                continue
+            c = c[:4] + (pre,)
+            tags["settings unrelated to units in force at the judged print"] += 1
+        if rng.random() < 0.05 and tags["case starts a new process"] < max(100, n // 10):
+            # the case starts a NEW PROCESS (no reset of the harness before it): run in a fork of a
+            # fresh interpreter as well (state the library sets up at import time)
+            c = c[:4] + ([["fresh"]] + [list(st) for st in c[4]],)
+            tags["case starts a new process"] += 1
+        out.append(c)
+    multi = [c for c in out if len(c[0]) >= 3 and not c[4]]
+    for k in range(min(len(multi), max(12, n // 40))):
+        u, frac, route, _, _ = multi[k]
+        value = ["enum:LATEX", "latex", "enum:LATEX", "enum:SCIENTIFIC"][k % 4]
+        out.append((u, frac, route, True, [["setting", "print_style", value]]))
+        tags["print style {} x multi-factor unit x arrays (deliberate)".format(
+            value.replace("enum:", "").upper())] += 1
+    return out
 
 
 def correspond(ctx):
